@@ -7,7 +7,7 @@
    URDNA2015, the entries and the tree are the abstract [backend]; the only
    assumption ever made about it is stated explicitly where used
    ([expand_ignores_undefined], C15_unsafe). *)
-From Coq Require Import List String Ascii Bool Arith NArith Lia.
+From Coq Require Import List String Ascii Bool Arith NArith ZArith Lia Permutation.
 From GSP Require Import Base.Prelude JsonLD.Safe.
 Import ListNotations.
 Open Scope string_scope.
@@ -684,8 +684,10 @@ End Theory.
 (* ------------------------------------------------- MerklizeJSONLD theorems *)
 Section Backend.
   Variable cf : nat.
-  Context {E DS R C : Type} (B : backend E DS R C).
-  Notation merklize := (merklize_doc cf B).
+  Context {E DS En C : Type} (B : backend E DS En C).
+  (* the tree the merklization starts from: a new one, or the caller's *)
+  Variable t0 : mtree.
+  Notation merklize safe dl d := (merklize_doc cf B safe dl t0 d).
 
   (* a successful safe-mode run: the scan under the COMPACT-phase behaviour of the
      loader succeeded (every context loaded) and found nothing unswallowed *)
@@ -693,7 +695,7 @@ Section Backend.
     merklize true dl d = Ok r ->
     exists os, undefined_occ (view_compact dl) cf d = Ok os /\ existsb unswallowed os = false.
   Proof.
-    unfold merklize_doc, proc_normalize, proc_compact, expand, new_jsonld_options. cbn.
+    unfold merklize_doc, merklize_gen, proc_normalize, proc_compact, expand, new_jsonld_options. cbn.
     intro H. apply bind_ok in H. destruct H as [ds [_ H]].
     apply bind_ok in H. destruct H as [r' [_ H]].
     apply bind_ok in H. destruct H as [cc [H _]].
@@ -752,10 +754,10 @@ Section Backend.
     intros Ho Hd Hos Hu.
     pose proof (walk_rejects _ _ _ _ _ _ _ _ _ _ _ Ho Hd eq_refl _ Hos) as Hx.
     revert Hu.
-    unfold merklize_doc, proc_normalize, proc_compact, expand, new_jsonld_options, safe_rejects. cbn.
+    unfold merklize_doc, merklize_gen, proc_normalize, proc_compact, expand, new_jsonld_options, safe_rejects. cbn.
     destruct (b_expand B (view_normalize dl) d) as [e| | |]; cbn; try discriminate.
     destruct (b_to_rdf B e) as [ds| | |]; cbn; try discriminate.
-    destruct (b_merk B ds) as [r0| | |]; cbn; try discriminate.
+    destruct (build B no_faults t0 ds) as [r0| | |]; cbn; try discriminate.
     intros _. rewrite Hos. cbn. rewrite Hx. reflexivity.
   Qed.
 
@@ -772,7 +774,7 @@ Section Backend.
     { destruct os as [|[p s] t]; [reflexivity|].
       destruct (walk_sound _ _ _ _ _ _ _ _ p s Hos (or_introl eq_refl)) as [cn [k [Hr Hd]]].
       rewrite (Hall _ _ _ _ Hr) in Hd. discriminate. }
-    unfold merklize_doc, proc_normalize, proc_compact, expand, new_jsonld_options, safe_rejects. cbn.
+    unfold merklize_doc, merklize_gen, proc_normalize, proc_compact, expand, new_jsonld_options, safe_rejects. cbn.
     rewrite Hos. reflexivity.
   Qed.
 
@@ -783,7 +785,7 @@ Section Backend.
     merklize true dl d = merklize false dl d.
   Proof.
     intros Hos Hex.
-    unfold merklize_doc, proc_normalize, proc_compact, expand, new_jsonld_options, safe_rejects. cbn.
+    unfold merklize_doc, merklize_gen, proc_normalize, proc_compact, expand, new_jsonld_options, safe_rejects. cbn.
     rewrite Hos. cbn. rewrite Hex. reflexivity.
   Qed.
 
@@ -798,7 +800,7 @@ Section Backend.
     forall ld d, merklize false (steady ld) d = merklize false (steady ld) (strip_undefined ld cf d).
   Proof.
     intros Hi ld d.
-    unfold merklize_doc, proc_normalize, proc_compact, expand, new_jsonld_options, steady. cbn.
+    unfold merklize_doc, merklize_gen, proc_normalize, proc_compact, expand, new_jsonld_options, steady. cbn.
     rewrite <- (Hi ld d). reflexivity.
   Qed.
 
@@ -814,6 +816,134 @@ Section Backend.
     rewrite (strip_is_removal ld cf d os Hwf Hos). reflexivity.
   Qed.
 
+  (* ---- success covers the document ---- *)
+  Lemma tree_add_ok t k v t' :
+    tree_add t k v = Ok t' ->
+    t_leaves t' = t_leaves t ++ [(k, v)] /\ t_adds t' = S (t_adds t) /\ t_fail_at t' = t_fail_at t /\
+    t_fail_at t <> Some (t_adds t).
+  Proof.
+    unfold tree_add.
+    destruct (t_fail_at t) as [n|] eqn:Ef.
+    - destruct (Nat.eqb n (t_adds t)) eqn:En'; [discriminate|].
+      destruct (existsb _ _); [discriminate|]. intro H. inversion H; subst; cbn.
+      repeat split; auto. intro E'. inversion E'; subst. rewrite Nat.eqb_refl in En'. discriminate.
+    - destruct (existsb _ _); [discriminate|]. intro H. inversion H; subst; cbn.
+      repeat split; auto. discriminate.
+  Qed.
+
+  (* AddEntriesToMerkleTree as it is: success means every entry became a leaf, nothing
+     else was added, the leaves present before are kept, and no Add call hit the
+     failing step of the tree *)
+  Lemma add_entries_ok es : forall t t',
+    add_entries B no_faults t es = Ok t' ->
+    (forall e, In e es -> exists k v, b_kv B e = Ok (k, v) /\ In (k, v) (t_leaves t')) /\
+    List.length (t_leaves t') = List.length (t_leaves t) + List.length es /\
+    incl (t_leaves t) (t_leaves t') /\
+    t_adds t' = t_adds t + List.length es /\
+    t_fail_at t' = t_fail_at t /\
+    (forall n, t_fail_at t = Some n -> ~ (t_adds t <= n < t_adds t + List.length es)).
+  Proof.
+    induction es as [|e rest IH]; intros t t' H.
+    - cbn in H. inversion H; subst. cbn [List.length].
+      split; [intros e []|]. split; [lia|]. split; [apply incl_refl|]. split; [lia|].
+      split; [reflexivity|]. intros n _. lia.
+    - cbn in H. apply bind_ok in H. destruct H as [[k v] [Hkv H]]. cbn in H.
+      destruct (tree_add t k v) as [t1| | |] eqn:Ea; try discriminate.
+      destruct (tree_add_ok _ _ _ _ Ea) as [L1 [A1 [F1 N1]]].
+      destruct (IH _ _ H) as [I1 [I2 [I3 [I4 [I5 I6]]]]].
+      repeat split.
+      + intros e' [E'|Hin].
+        * subst e'. exists k, v. split; [exact Hkv|]. apply I3. rewrite L1. apply in_or_app. right. left. reflexivity.
+        * apply I1. exact Hin.
+      + rewrite I2, L1, app_length. cbn. lia.
+      + intros x Hx. apply I3. rewrite L1. apply in_or_app. left. exact Hx.
+      + rewrite I4, A1. cbn. lia.
+      + rewrite I5. exact F1.
+      + intros n Hn. rewrite <- F1 in Hn. specialize (I6 n Hn). rewrite A1 in I6. cbn.
+        intro Hr. assert (n = t_adds t \/ S (t_adds t) <= n < S (t_adds t) + List.length rest) as [E'|E'] by lia.
+        * subst n. rewrite F1 in Hn. exact (N1 Hn).
+        * exact (I6 E').
+  Qed.
+
+  (* every successful merklization, in either mode: the entries are exactly what
+     EntriesFromRDF produced for the dataset of THIS document (no error of it or of
+     any Add was skipped), each of them is a leaf of the returned tree, the tree grew
+     by exactly that many leaves, and no Add hit a failing step *)
+  Theorem success_covers_entries safe dl d es t :
+    merklize safe dl d = Ok (es, t) ->
+    (exists e ds, b_expand B (view_normalize dl) d = Ok e /\ b_to_rdf B e = Ok ds /\ b_entries B ds = Ok es) /\
+    (forall en, In en es -> exists k v, b_kv B en = Ok (k, v) /\ In (k, v) (t_leaves t)) /\
+    List.length (t_leaves t) = List.length (t_leaves t0) + List.length es /\
+    incl (t_leaves t0) (t_leaves t) /\
+    (forall n, t_fail_at t0 = Some n -> ~ (t_adds t0 <= n < t_adds t0 + List.length es)).
+  Proof.
+    unfold merklize_doc, merklize_gen, proc_normalize, new_jsonld_options. cbn.
+    intro H. apply bind_ok in H. destruct H as [ds [Hn H]].
+    apply bind_ok in H. destruct H as [[es' t'] [Hb H]].
+    apply bind_ok in H. destruct H as [cc [_ H]]. inversion H; subst es' t'. clear H.
+    apply bind_ok in Hn. destruct Hn as [e [He Hr]].
+    unfold build in Hb. cbn in Hb.
+    apply bind_ok in Hb. destruct Hb as [es1 [He1 Hb]].
+    apply bind_ok in Hb. destruct Hb as [t1 [Ha Hb]]. inversion Hb; subst es1 t1. clear Hb.
+    destruct (add_entries_ok _ _ _ Ha) as [I1 [I2 [I3 [_ [_ I6]]]]].
+    split; [|repeat split; auto].
+    exists e, ds. repeat split; auto.
+    destruct (b_entries B ds); try discriminate; exact He1.
+  Qed.
+
+  (* an Add failure of the caller's tree is propagated: never Ok *)
+  Theorem add_failure_propagated safe dl d es t n :
+    merklize safe dl d = Ok (es, t) -> t_fail_at t0 = Some n ->
+    ~ (t_adds t0 <= n < t_adds t0 + List.length es).
+  Proof. intros H Hn. destruct (success_covers_entries _ _ _ _ _ H) as [_ [_ [_ [_ I]]]]. exact (I n Hn). Qed.
+
+  (* the document level.  [doc_facts ld d]: the facts stated by the members of [d] that
+     are defined (what C01 calls the facts of the document; produced by json-gold's
+     expansion + ToRDF + URDNA2015 and EntriesFromRDF); [fact_of]: the fact an entry
+     stands for.  The hypothesis is the document-level reading of C01 (dataset level:
+     proved in RDF/; JSON-LD level: differential), restated here as an explicit
+     interface property of the backend. *)
+  Section Facts.
+    Context {F : Type} (fact_of : En -> F) (doc_facts : lview -> json -> list F).
+    Definition entries_are_facts : Prop :=
+      forall ld d e ds es, b_expand B ld d = Ok e -> b_to_rdf B e = Ok ds -> b_entries B ds = Ok es ->
+                           Permutation (map fact_of es) (doc_facts ld d).
+
+    Theorem success_covers_document safe dl d es t :
+      entries_are_facts ->
+      merklize safe dl d = Ok (es, t) ->
+      Permutation (map fact_of es) (doc_facts (view_normalize dl) d) /\
+      List.length es = List.length (doc_facts (view_normalize dl) d) /\
+      (forall f, In f (doc_facts (view_normalize dl) d) ->
+         exists en k v, In en es /\ fact_of en = f /\ b_kv B en = Ok (k, v) /\ In (k, v) (t_leaves t)) /\
+      List.length (t_leaves t) = List.length (t_leaves t0) + List.length (doc_facts (view_normalize dl) d).
+    Proof.
+      intros Hf H. destruct (success_covers_entries _ _ _ _ _ H) as [[e [ds [H1 [H2 H3]]]] [I1 [I2 _]]].
+      pose proof (Hf _ _ _ _ _ H1 H2 H3) as P.
+      assert (L : List.length es = List.length (doc_facts (view_normalize dl) d)).
+      { rewrite <- (Permutation_length P). rewrite map_length. reflexivity. }
+      repeat split; auto.
+      - intros f Hin. apply (Permutation_in _ (Permutation_sym P)) in Hin.
+        apply in_map_iff in Hin. destruct Hin as [en [E' Hen]].
+        destruct (I1 en Hen) as [k [v [K1 K2]]]. exists en, k, v. auto.
+      - rewrite I2, L. reflexivity.
+    Qed.
+  End Facts.
+
+  (* C15_unsafe at the level of entries and tree *)
+  Theorem unsafe_equals_stripped :
+    expand_ignores_undefined ->
+    forall ld d es t,
+    merklize false (steady ld) d = Ok (es, t) ->
+    merklize false (steady ld) (strip_undefined ld cf d) = Ok (es, t).
+  Proof. intros Hi ld d es t H. rewrite <- (unsafe_is_stripped Hi ld d). exact H. Qed.
+End Backend.
+
+Section Plumbing.
+  Variable cf : nat.
+  Context {E DS En C : Type} (B : backend E DS En C).
+  Notation merklize := (merklize_doc cf B).
+
   (* ---- option plumbing ---- *)
   Definition effective_safe (opts : list mz_option) : bool :=
     fold_left (fun acc o => match o with WithSafeMode b => b | _ => acc end) opts true.
@@ -821,6 +951,11 @@ Section Backend.
     fold_left (fun acc o => match o with WithDocumentLoader l => l | _ => acc end) opts None.
   Definition effective_ipfs (opts : list mz_option) : option dloader :=
     fold_left (fun acc o => match o with WithIPFS l => Some l | _ => acc end) opts None.
+  Definition effective_tree (opts : list mz_option) : mtree :=
+    match fold_left (fun acc o => match o with WithMerkleTree t => Some t | _ => acc end) opts None with
+    | Some t => t
+    | None => fresh_tree
+    end.
   (* merklize.go:1631 getDocumentLoader *)
   Definition effective_loader (default : option dloader) (opts : list mz_option) : option dloader :=
     match effective_doc_loader opts with
@@ -834,29 +969,37 @@ Section Backend.
     mz_document_loader (fold_left apply_option opts m) =
       fold_left (fun acc o => match o with WithDocumentLoader l => l | _ => acc end) opts (mz_document_loader m) /\
     mz_ipfs (fold_left apply_option opts m) =
-      fold_left (fun acc o => match o with WithIPFS l => Some l | _ => acc end) opts (mz_ipfs m).
+      fold_left (fun acc o => match o with WithIPFS l => Some l | _ => acc end) opts (mz_ipfs m) /\
+    mz_tree (fold_left apply_option opts m) =
+      fold_left (fun acc o => match o with WithMerkleTree t => Some t | _ => acc end) opts (mz_tree m).
   Proof.
     induction opts as [|o t IH]; intro m; cbn [fold_left]; [auto|].
-    destruct o as [b|l|l|].
+    destruct o as [b|l|l|tr|].
     - exact (IH (apply_option m (WithSafeMode b))).
     - exact (IH (apply_option m (WithDocumentLoader l))).
     - exact (IH (apply_option m (WithIPFS l))).
+    - exact (IH (apply_option m (WithMerkleTree tr))).
     - exact (IH m).
   Qed.
 
   Lemma new_merklizer_fields opts :
     mz_safe_mode (new_merklizer opts) = effective_safe opts /\
     mz_document_loader (new_merklizer opts) = effective_doc_loader opts /\
-    mz_ipfs (new_merklizer opts) = effective_ipfs opts.
-  Proof. apply (fold_fields opts). Qed.
+    mz_ipfs (new_merklizer opts) = effective_ipfs opts /\
+    get_tree (new_merklizer opts) = effective_tree opts.
+  Proof.
+    destruct (fold_fields opts {| mz_safe_mode := true; mz_document_loader := None; mz_ipfs := None; mz_tree := None |})
+      as [H1 [H2 [H3 H4]]].
+    repeat split; auto. unfold get_tree, effective_tree, new_merklizer. rewrite H4. reflexivity.
+  Qed.
 
   (* the mode never depends on the loader configuration, and vice versa *)
   Theorem plumbing_MerklizeJSONLD default opts d :
     MerklizeJSONLD cf B default opts d =
-    merklize (effective_safe opts) (effective_loader default opts) d.
+    merklize (effective_safe opts) (effective_loader default opts) (effective_tree opts) d.
   Proof.
     unfold MerklizeJSONLD, get_document_loader, effective_loader.
-    destruct (new_merklizer_fields opts) as [H1 [H2 H3]]. rewrite H1, H2, H3. reflexivity.
+    destruct (new_merklizer_fields opts) as [H1 [H2 [H3 H4]]]. rewrite H1, H2, H3, H4. reflexivity.
   Qed.
 
   Lemma effective_safe_last opts b :
@@ -868,7 +1011,7 @@ Section Backend.
   Proof.
     unfold effective_safe. generalize true.
     induction opts as [|o t IH]; intros b H; cbn; [reflexivity|].
-    destruct o as [b'| | |]; try (apply IH; intros o' Ho'; apply H; right; exact Ho').
+    destruct o as [b'| | | |]; try (apply IH; intros o' Ho'; apply H; right; exact Ho').
     exfalso. apply (H (WithSafeMode b') (or_introl eq_refl) b'). reflexivity.
   Qed.
 
@@ -890,11 +1033,11 @@ Section Backend.
      loader configuration (explicit loader, IPFS, process-wide default, nil) *)
   Theorem default_safe default opts d :
     (forall o, In o opts -> forall b, o <> WithSafeMode b) ->
-    MerklizeJSONLD cf B default opts d = merklize true (effective_loader default opts) d /\
-    W3CCredential_Merklize cf B default d opts = merklize true (effective_loader default opts) d /\
-    ToCoreClaim_merklize cf B default d (Some opts) = merklize true (effective_loader default opts) d /\
-    ToCoreClaim_merklize cf B default d None = merklize true default d /\
-    VerifyProof_merklize cf B default d opts = merklize true (effective_loader default opts) d /\
+    MerklizeJSONLD cf B default opts d = merklize true (effective_loader default opts) (effective_tree opts) d /\
+    W3CCredential_Merklize cf B default d opts = merklize true (effective_loader default opts) (effective_tree opts) d /\
+    ToCoreClaim_merklize cf B default d (Some opts) = merklize true (effective_loader default opts) (effective_tree opts) d /\
+    ToCoreClaim_merklize cf B default d None = merklize true default fresh_tree d /\
+    VerifyProof_merklize cf B default d opts = merklize true (effective_loader default opts) (effective_tree opts) d /\
     ld_safe_mode (options_jsonld_options default) = true.
   Proof.
     intro H. pose proof (plumbing_MerklizeJSONLD default opts d) as P.
@@ -905,12 +1048,12 @@ Section Backend.
   (* C15_plumbing: every entry point that merklizes runs merklize_doc in the mode
      selected by the caller's options (the last WithSafeMode wins, none = safe) *)
   Theorem plumbing_all default opts d :
-    MerklizeJSONLD cf B default opts d = merklize (effective_safe opts) (effective_loader default opts) d /\
-    W3CCredential_Merklize cf B default d opts = merklize (effective_safe opts) (effective_loader default opts) d /\
-    ToCoreClaim_merklize cf B default d (Some opts) = merklize (effective_safe opts) (effective_loader default opts) d /\
-    VerifyProof_merklize cf B default d opts = merklize (effective_safe opts) (effective_loader default opts) d.
+    MerklizeJSONLD cf B default opts d = merklize (effective_safe opts) (effective_loader default opts) (effective_tree opts) d /\
+    W3CCredential_Merklize cf B default d opts = merklize (effective_safe opts) (effective_loader default opts) (effective_tree opts) d /\
+    ToCoreClaim_merklize cf B default d (Some opts) = merklize (effective_safe opts) (effective_loader default opts) (effective_tree opts) d /\
+    VerifyProof_merklize cf B default d opts = merklize (effective_safe opts) (effective_loader default opts) (effective_tree opts) d.
   Proof. repeat split; apply plumbing_MerklizeJSONLD. Qed.
-End Backend.
+End Plumbing.
 
 (* ------------------------------------------------------------ non-vacuity *)
 Module Examples.
@@ -924,9 +1067,12 @@ Module Examples.
   Definition doc (m : list (string * json)) : json := JObj (("@context", cx) :: m).
 
   (* a backend that always succeeds: the document is its own root *)
-  Definition idB : backend json json json unit :=
-    {| b_expand := fun _ d => Ok d; b_to_rdf := fun d => Ok d; b_merk := fun d => Ok d;
-       b_compact := fun _ => Ok tt |}.
+  (* the backend that always succeeds: one entry per document, key 1, value 2 *)
+  Definition idB : backend json json unit unit :=
+    {| b_expand := fun _ d => Ok d; b_to_rdf := fun d => Ok d; b_entries := fun _ => Ok [tt];
+       b_kv := fun _ => Ok (1%Z, 2%Z); b_compact := fun _ => Ok tt |}.
+  Definition one_leaf : result (En := unit) :=
+    ([tt], {| t_leaves := [(1%Z, 2%Z)]; t_adds := 1; t_fail_at := None |}).
 
   Definition good := doc [("name", JStr "a"); ("child", JArr [JObj [("cp", JStr "r"); ("ex:q", JNum "1")]])].
   Definition bad_nested := doc [("name", JStr "a"); ("child", JArr [JObj [("cp", JStr "r"); ("zzz", JNum "1")]])].
@@ -934,12 +1080,12 @@ Module Examples.
   Definition bad_in_set := doc [("child", JObj [("@set", JArr [JObj [("cp", JStr "r"); ("zzz", JNum "1")]])])].
   Definition blank_prop := doc [("name", JStr "a"); ("_:p", JStr "b")].
 
-  Example good_accepted : merklize_doc 20 idB true steady_none good = Ok good.
+  Example good_accepted : merklize_doc 20 idB true steady_none fresh_tree good = Ok one_leaf.
   Proof. vm_compute. reflexivity. Qed.
   Example bad_nested_rejected :
-    merklize_doc 20 idB true steady_none bad_nested = Err "invalid property" /\
+    merklize_doc 20 idB true steady_none fresh_tree bad_nested = Err "invalid property" /\
     undefined_occ no_loader 20 bad_nested = Ok [([PK "child"; PI 0%N; PK "zzz"], false)] /\
-    merklize_doc 20 idB false steady_none bad_nested = Ok bad_nested.
+    merklize_doc 20 idB false steady_none fresh_tree bad_nested = Ok one_leaf.
   Proof. vm_compute. repeat split. Qed.
   Example bad_scope_rejected :
     undefined_occ no_loader 20 bad_scope = Ok [([PK "child"; PK "tp"], false)].
@@ -966,19 +1112,19 @@ Module Examples.
      error of the nested Expand under @set): safe mode accepts a document in which
      the undefined member zzz occurs *)
   Example in_set_accepted :
-    merklize_doc 20 idB true steady_none bad_in_set = Ok bad_in_set /\
+    merklize_doc 20 idB true steady_none fresh_tree bad_in_set = Ok one_leaf /\
     undefined_occ no_loader 20 bad_in_set = Ok [([PK "child"; PK "@set"; PI 0%N; PK "zzz"], true)].
   Proof. vm_compute. split; reflexivity. Qed.
 
   (* json-gold's notion of "defined" is weaker than "expands to an absolute IRI" *)
   Example blank_property_passes :
-    merklize_doc 20 idB true steady_none blank_prop = Ok blank_prop /\
+    merklize_doc 20 idB true steady_none fresh_tree blank_prop = Ok one_leaf /\
     key_absolute (Ctx [] None None) "_:p" = false /\ key_defined (Ctx [] None None) "_:p" = true.
   Proof. vm_compute. repeat split. Qed.
 
   Example default_is_safe :
     MerklizeJSONLD 20 idB None [] bad_nested = Err "invalid property" /\
-    MerklizeJSONLD 20 idB None [OOther; WithSafeMode false] bad_nested = Ok bad_nested /\
+    MerklizeJSONLD 20 idB None [OOther; WithSafeMode false] bad_nested = Ok one_leaf /\
     MerklizeJSONLD 20 idB None [WithSafeMode false; WithDocumentLoader None; WithSafeMode true] bad_nested
       = Err "invalid property".
   Proof. vm_compute. repeat split. Qed.
@@ -992,14 +1138,39 @@ Module Examples.
     if String.eqb u "https://ctx.example/c" then Ok (JObj [("@context", cx)]) else Err "404".
   Definition flaky : option dloader := Some {| dl_normalize := serving; dl_compact := no_loader |}.
   Example flaky_loader_rejected :
-    merklize_doc 20 idB true flaky remote_doc = Err "loading remote context failed" /\
-    merklize_doc 20 idB true (steady serving) remote_doc = Err "invalid property" /\
+    merklize_doc 20 idB true flaky fresh_tree remote_doc = Err "loading remote context failed" /\
+    merklize_doc 20 idB true (steady serving) fresh_tree remote_doc = Err "invalid property" /\
     (forall os, undefined_occ (view_compact flaky) 20 remote_doc <> Ok os).
   Proof. vm_compute. repeat split. intros os H. discriminate. Qed.
 
   (* nil process-wide loader, inline contexts: still safe *)
   Example nil_loader_still_safe :
     MerklizeJSONLD 20 idB None [] bad_nested = Err "invalid property" /\
-    MerklizeJSONLD 20 idB None [] good = Ok good.
+    MerklizeJSONLD 20 idB None [] good = Ok one_leaf.
+  Proof. vm_compute. split; reflexivity. Qed.
+
+  (* caller trees: a failing Add and a pre-populated path make the merklization fail *)
+  Definition failing0 : mtree := {| t_leaves := []; t_adds := 0; t_fail_at := Some 0 |}.
+  Definition populated : mtree := {| t_leaves := [(1%Z, 7%Z)]; t_adds := 1; t_fail_at := None |}.
+  Example add_failure_is_an_error :
+    merklize_doc 20 idB true steady_none failing0 good = Err "tree storage failure" /\
+    merklize_doc 20 idB true steady_none populated good = Err "entry index already exists" /\
+    MerklizeJSONLD 20 idB None [WithMerkleTree failing0] good = Err "tree storage failure".
+  Proof. vm_compute. repeat split. Qed.
+
+  (* REFUTATION witnesses for the seeded variants: with one error check switched off
+     the pipeline reports success while a field is missing from the tree *)
+  Definition errB : backend json json unit unit :=
+    {| b_expand := fun _ d => Ok d; b_to_rdf := fun d => Ok d; b_entries := fun _ => Err "unparsable literal";
+       b_kv := fun _ => Ok (1%Z, 2%Z); b_compact := fun _ => Ok tt |}.
+  Example seeded_k_refuted :   (* error of EntriesFromRDF dropped: success with NO entries *)
+    merklize_gen 20 errB {| f_ignore_entries_err := true; f_ignore_add_err := false |} true steady_none fresh_tree good
+      = Ok ([], fresh_tree) /\
+    merklize_doc 20 errB true steady_none fresh_tree good = Err "unparsable literal".
+  Proof. vm_compute. split; reflexivity. Qed.
+  Example seeded_m_refuted :   (* error of mt.Add dropped: success, the entry is not a leaf *)
+    merklize_gen 20 idB {| f_ignore_entries_err := false; f_ignore_add_err := true |} true steady_none failing0 good
+      = Ok ([tt], {| t_leaves := []; t_adds := 1; t_fail_at := Some 0 |}) /\
+    merklize_doc 20 idB true steady_none failing0 good = Err "tree storage failure".
   Proof. vm_compute. split; reflexivity. Qed.
 End Examples.
